@@ -91,6 +91,8 @@ typedef struct {
     long min, max;   /* 0 = unset */
     long max2;       /* 0 = unset; ZCK_CHUNK_MAX set a second time, after the minimum */
     int nowrite;
+    int refuse;      /* after the options: a battery of option calls with values the library must refuse, each followed by
+                        zck_clear_error() - a refused call must leave the configuration as it was */
 } wcfg;
 void wcfg_parse(wcfg *c, char **tok, int n);
 /* apply config to a context opened for writing; returns false if the library refused an option (msg in *why) */
